@@ -130,20 +130,32 @@ class n0dict__(dict):
 
         if isinstance(xpath, str) and any(char in xpath for char in "/["):
             parent_node, node_name_index, _cur_value, _xpath_found_str, not_found_xpath_list = self._find(xpath, self, return_lists = True)
-            if not_found_xpath_list:
-                parent_node, node_name_index = self._add(parent_node, node_name_index, not_found_xpath_list)
+            # _add() hangs everything what it creates on ONE new key / ONE new element of the node where the search is stopped
+            grown_node = parent_node if not_found_xpath_list and isinstance(parent_node, (dict, list)) else None
+            grown_from = 0 if grown_node is None else len(grown_node)
+            try:
+                if not_found_xpath_list:
+                    parent_node, node_name_index = self._add(parent_node, node_name_index, not_found_xpath_list)
 
-            node_name, node_index = split_name_index(node_name_index)
-            if isinstance(parent_node, dict):
-                if node_index:
-                    raise IndexError(f"How is it possible: index '{node_index}' for dictionary ({type(parent_node)})'{parent_node}'?")
-                parent_node.update({node_name_index: new_value})
-            elif isinstance(parent_node, (list, tuple)):
-                if node_name:
-                    raise IndexError(f"How is it possible: key '{node_name}' for list ({type(parent_node)})'{parent_node}'?")
-                parent_node[n0eval(node_index)] = new_value
-            else:
-                raise TypeError(f"How is it possible: unknown type of parent node ({type(parent_node)}) of '{parent_node}'")
+                node_name, node_index = split_name_index(node_name_index)
+                if isinstance(parent_node, dict):
+                    if node_index:
+                        raise IndexError(f"How is it possible: index '{node_index}' for dictionary ({type(parent_node)})'{parent_node}'?")
+                    parent_node.update({node_name_index: new_value})
+                elif isinstance(parent_node, (list, tuple)):
+                    if node_name:
+                        raise IndexError(f"How is it possible: key '{node_name}' for list ({type(parent_node)})'{parent_node}'?")
+                    parent_node[n0eval(node_index)] = new_value
+                else:
+                    raise TypeError(f"How is it possible: unknown type of parent node ({type(parent_node)}) of '{parent_node}'")
+            except Exception:
+                # The creation is refused at some deeper level: take back what is already created, nothing is left behind
+                if grown_node is not None and len(grown_node) > grown_from:
+                    if isinstance(grown_node, dict):
+                        grown_node.popitem()
+                    else:
+                        del grown_node[-1]
+                raise
         else:
             super(n0dict__, self).__setitem__(xpath, new_value)
 
